@@ -215,11 +215,25 @@ class Project:
     self._link()
     self.inlined: List[str] = []
     if expand:
-      # helper-expanded view: see fdlstatic/inline.py.  expand is True (all
-      # functions) or a collection of function qualnames to expand calls in.
-      from fdlstatic import inline  # pylint: disable=g-import-not-at-top
-      self.inlined = inline.Inliner(
-          self, None if expand is True else list(expand)).run().sites
+      # second view of the tree: see fdlstatic/inline.py, normalise.py.
+      # expand = {'helpers': True | [caller qualnames] | False,
+      #           'temps': bool, 'loops': bool}
+      if not isinstance(expand, dict):
+        expand = {'helpers': expand}
+      from fdlstatic import inline, normalise  # pylint: disable=g-import-not-at-top
+      hp = expand.get('helpers')
+      if hp:
+        self.inlined = inline.Inliner(
+            self, None if hp is True else list(hp)).run().sites
+      fns = [f for f in self.funcs.values() if not f.is_lambda]
+      if expand.get('loops'):
+        k = sum(normalise.loops_to_comprehensions(f.node) for f in fns)
+        if k:
+          self.inlined.append(f'{k} accumulator loop(s) as comprehensions')
+      if expand.get('temps'):
+        k = sum(normalise.eliminate_temps(f.node) for f in fns)
+        if k:
+          self.inlined.append(f'{k} single-assignment local(s) substituted')
 
   # ---------------------------------------------------------------- loading
   def _load(self):
